@@ -60,8 +60,11 @@ def exOps : List Op :=
     Get/Set/Delete/Keys/ID/Fresh/Destroy/Regenerate/Reset/SetIdleTimeout/Save/Release/store.Get/GetByID/
     store.Delete/store.Reset — the observations of the model (what every handler action returned, the
     Set-Cookie / response header, the generator outputs, the storage keys) pass the oracle of Spec.lean.
-    The only other answer of the oracle is `outside-domain` (a second `store.Get` in one request, `Save`
-    of a session the same handler destroyed); it never reports a violated clause. -/
+    A request may look its session up any number of times (`store.Get` in a guard middleware and again in
+    the handler): every lookup sees the same session id and the data last saved under it, Fresh — and a
+    restarted absolute lifetime — only if that id was generated during this very request.
+    The only other answer of the oracle is `outside-domain` (`Save` of a session the same handler
+    destroyed); it never reports a violated clause. -/
 theorem model_refines_spec (cfg : Cfg) (gen : Nat → Bytes) (hw : WF cfg gen) (ops : List Op) :
     specRun cfg specInit ops (obsOf (run cfg gen {} ops).2) = none ∨
     ∃ e, specRun cfg specInit ops (obsOf (run cfg gen {} ops).2) = some e ∧ OutsideDomain e :=
@@ -77,9 +80,9 @@ example : specRun exCfg specInit
     [some { acts := [.info [102] false], outCk := some (some [102]), outHd := none, gens := [], keys := [[102]] }]
     ≠ none := by decide
 
-/-- **Refinement, inside the domain.** The domain of the oracle has a syntactic description: no Store-API
-    script calls `store.Get` twice and no script calls `Save` after `Destroy` (`Op.inDomain`, decidable on
-    the history alone). For every such history the oracle's answer on the model's observations is `none`:
+/-- **Refinement, inside the domain.** The domain of the oracle has a syntactic description: no script
+    calls `Save` after `Destroy` (`Op.inDomain`, decidable on the history alone; any number of `store.Get`
+    per request is inside). For every such history the oracle's answer on the model's observations is `none`:
     every clause of the sentence holds at every step. -/
 theorem model_refines_spec_in_domain (cfg : Cfg) (gen : Nat → Bytes) (hw : WF cfg gen) (ops : List Op)
     (hdom : ops.all Op.inDomain = true) :
@@ -87,6 +90,28 @@ theorem model_refines_spec_in_domain (cfg : Cfg) (gen : Nat → Bytes) (hw : WF 
   run_sim_dom hw ops {} specInit (strel_init cfg gen) hdom
 
 example : exOps.all Op.inDomain = true := by decide
+
+/-- a guard middleware and a handler both look the session up (Get / work / Save / Release, twice), on a
+    new, an existing and a forged id; time then passes beyond the original absolute deadline -/
+def exMultiOps : List Op :=
+  [ .req { viaMw := false, ck := [], hd := [], qr := [], script := [.storeGet, .set [97] [49], .save, .release, .storeGet, .info, .get [97], .save, .release] },
+    .adv 8,
+    .req { viaMw := false, ck := exGen 0, hd := [], qr := [], script := [.storeGet, .info, .save, .release, .storeGet, .info, .get [97], .save, .release, .storeGet, .info] },
+    .adv 8,
+    .req { viaMw := false, ck := [102], hd := [], qr := [], script := [.storeGet, .info, .release, .storeGet, .info, .save, .release] },
+    .req { viaMw := false, ck := exGen 0, hd := [], qr := [], script := [.storeGet, .save, .release, .storeGet, .save, .release] },
+    .adv 8, .req { viaMw := false, ck := exGen 0, hd := [], qr := [], script := [.storeGet, .save, .release, .storeGet, .save, .release] },
+    .adv 8, .req { viaMw := false, ck := exGen 0, hd := [], qr := [], script := [.storeGet, .info, .get [97]] } ]
+
+example : exMultiOps.all Op.inDomain = true := by decide
+example : specRun exCfg specInit exMultiOps (obsOf (run exCfg exGen {} exMultiOps).2) = none := by decide
+-- the second lookup of the request that created `x` reports Fresh, the three lookups of a later request do
+-- not; a forged id that was not saved gets a new id per lookup; at time 32 > 30 the session `x` is gone
+-- although every request looked it up and saved it twice
+example : ((run exCfg exGen {} exMultiOps).2.map fun o => o.map fun r => r.acts.filter fun a => match a with | .info _ _ => true | _ => false) =
+    [some [.info (exGen 0) true], none, some [.info (exGen 0) false, .info (exGen 0) false, .info (exGen 0) false], none,
+     some [.info (exGen 1) true, .info (exGen 2) true], some [], none, some [], none, some [.info (exGen 3) true]] := by
+  decide
 -- the domain excludes what it says and nothing else in these scripts
 example : Op.inDomain (.req { viaMw := false, ck := [], hd := [], qr := [], script := [.storeGet, .destroy, .save] }) = false := by
   decide
